@@ -33,7 +33,9 @@ Bad(o) ==
   \cup F("not-woken:" \o o.fam, ~(o.r0 # o.r1 /\ ~o.fired))
   \cup F("index-decreased:" \o o.fam, ~(Norm(o.i1) < Norm(o.i0)))
 
+\* events of the scale scenario (thousands of instances of one service) carry observations only
 Verdict(i) ==
+  IF "nomodel" \in DOMAIN Trace[i] THEN UNION {Bad(Trace[i].obs[j]) : j \in DOMAIN Trace[i].obs} ELSE
   LET e == Trace[i]  pre == Pre(i)  post == Abs(e.post)  r == Apply(pre, e.cmd.idx, e.cmd) IN
      UNION {Bad(e.obs[j]) : j \in DOMAIN e.obs}
   \cup F("model:err", e.err = r.err)
